@@ -49,6 +49,7 @@ class Ctx:
         self.forall_facts: list = []
         self.index_guards: dict = {}
         self.events: list = []
+        self.reach: list = []  # (label, nhyps, condition): must be satisfiable (vacuity guard)
 
     # facts ------------------------------------------------------------------------
     def assume(self, t):
@@ -114,6 +115,10 @@ class Ctx:
         self.obligations.append(ob)
         if assume_after and goal is not T.TRUE:
             self.assume(goal)
+
+    def reachable(self, label, cond):
+        """vacuity guard: obligations were proved under cond - record that cond must be satisfiable here"""
+        self.reach.append((label, len(self.hyps), T.lift(cond)))
 
     # decisions --------------------------------------------------------------------
     def decide(self, cond, why=""):
